@@ -1,0 +1,49 @@
+//go:build verif
+
+// Machine-checked contracts for package loglimiter (comment-only, tag verif).
+
+package loglimiter
+
+// Ghost: what was actually handed to the process log last, and when (the clock
+// reading taken by that Print). The representation invariant ties the private
+// bookkeeping to it, so "suppressed" is specified against what was really
+// printed and not against the fields the implementation happens to keep.
+
+//@ ghost field LogLimiter.gLast string
+//@ ghost field LogLimiter.gTime int
+//@ ghost field LogLimiter.gPrinted int
+//@ ghost field LogLimiter.gNow int
+//@
+//@ pred (l *LogLimiter) inv() := l.previousEntry == l.gLast && time.tval(l.previousTime) == l.gTime
+//@
+//@ fieldfunc (l LogLimiter) nowFunc
+//@   mode trusted
+
+//@ func New
+//@   allocates
+//@   ghost_exit result.gTime = time.tval(result.previousTime)
+//@   ensures [C20] fresh(result) && result.interval == interval && result.nowFunc != nil && result.inv() && result.gPrinted == 0
+
+//@ func (limiter *LogLimiter) Print
+//@   requires limiter != nil && limiter.nowFunc != nil && limiter.inv()
+//@   modifies limiter.previousTime, limiter.previousEntry, limiter.gLast, limiter.gTime, limiter.gPrinted, limiter.gNow
+//@   call nowFunc#1 bind now
+//@   ghost_exit limiter.gNow = time.tval(now)
+//@   ghost_exit limiter.gPrinted = old(limiter.gPrinted) + ncalls("Print")
+//@   ghost_exit limiter.gLast = ncalls("Print") == 1 ? unboxstr(callarg("Print", 1, 0)[0]) : old(limiter.gLast)
+//@   ghost_exit limiter.gTime = ncalls("Print") == 1 ? time.tval(now) : old(limiter.gTime)
+//@   ensures [C20] limiter.inv()
+//@   ensures [C20] ncalls("nowFunc") == 1 && ncalls("Print") <= 1
+//@   ensures [C20] (limiter.gPrinted == old(limiter.gPrinted)) == (limiter.gNow - old(limiter.gTime) < limiter.interval && s == old(limiter.gLast))
+//@   ensures [C20] limiter.gPrinted == old(limiter.gPrinted) ==> limiter.gLast == old(limiter.gLast) && limiter.gTime == old(limiter.gTime)
+//@   ensures [C20] limiter.gPrinted != old(limiter.gPrinted) ==> limiter.gPrinted == old(limiter.gPrinted) + 1 && limiter.gLast == s && limiter.gTime == limiter.gNow
+//@   ensures [C20] ncalls("Print") == 1 ==> len(callarg("Print", 1, 0)) == 1
+//@   ensures [C20] limiter.interval == old(limiter.interval)
+
+//@ func (limiter *LogLimiter) Printf
+//@   requires limiter != nil && limiter.nowFunc != nil && limiter.inv()
+//@   modifies limiter.previousTime, limiter.previousEntry, limiter.gLast, limiter.gTime, limiter.gPrinted, limiter.gNow
+//@   ensures [C20] limiter.inv()
+//@   ensures [C20] ncalls("Print") == 1 && ncalls("Sprintf") == 1
+//@   ensures [C20] callarg("Print", 1, 1) == callres("Sprintf", 1)
+//@   ensures [C20] callarg("Sprintf", 1, 0) == format && callarg("Sprintf", 1, 1) == v
